@@ -6,6 +6,7 @@ PyramidIO.read_image / write_image / tile_path, ImageLoader.load_path — over t
 Two consecutive callbacks on ONE TileMerger: first a parent with four arbitrary children, then the inspected parent
 with a symbolic presence pattern, so that state carried in the merger's reused buffer is visible.
 """
+from vlib.core import soft_attr as core_u
 import warnings
 
 import numpy as _np
@@ -228,7 +229,7 @@ def cases(tier):
 
 
 def check(run):
-    run.uses(tm.TileMerger.__init__, tm.TileMerger.walk_callback, tm.TileMerger._get_min_max_of_children, tm.averaging_merger,
+    run.uses(tm.TileMerger.__init__, tm.TileMerger.walk_callback, core_u(tm.TileMerger, "_get_min_max_of_children"), tm.averaging_merger,
              ti.Image.from_array, ti.Image.update_into_maskable_buffer, ti.Image.clear, ti.Image.is_completely_masked,
              ti.Image.save, ti.ImageMode.make_maskable_buffer, ti.ImageLoader.load_path, tp.PyramidIO.read_image,
              tp.PyramidIO.write_image, tp.PyramidIO.tile_path, tp.pos_children)
